@@ -1158,5 +1158,5 @@ func runC16(r *RunCtx) error {
 			return err
 		}
 	}
-	return nil
+	return c16RestartTwin(r)
 }
